@@ -88,6 +88,12 @@ const SHAPES: &[&str] = &[
     // item texts that begin with numerals outside ASCII; an item that carries nothing in front of numbered ones
     "- ٣ W\n- ½ W\n\n1. １W\n2. ① W\n",
     "- W\n  1. >\n  2. W\n",
+    // names and tags wrapped over lines inside containers; angle-bracket text that is no tag in a cell
+    "- W see [[Project W\n  Kickoff W]] W\n",
+    "> W [[W W\n> W|W]] W\n",
+    "<img src=\"W.png\"\n     width=\"300\"\n     alt=\"W\">\n",
+    "- <img src=\"W.png\"\n  width=\"300\"> W\n",
+    "| W | W |\n|---|---|\n| <Ctrl+W> | <=> |\n| <2024-01-15 W> | <br> |\n",
 ];
 
 pub fn shapes(rng: &mut Rng, max: usize) -> String {
